@@ -5,6 +5,25 @@ import fw
 
 BASES = 'ACGT'
 REFLEN = 4000
+CONTIGS = ['chr1', 'chr2', 'chr10', 'chrX']          # = impl_c15.IN_CONTIGS
+
+
+def iroot(n, k):
+    """floor of the k-th root of the non-negative integer n"""
+    lo, hi = 0, 1 << (n.bit_length() // k + 1)
+    while lo < hi:
+        mid = (lo + hi + 1) // 2
+        if mid ** k <= n:
+            lo = mid
+        else:
+            hi = mid - 1
+    return lo
+
+
+# thresholds of rint(-10 log10 x): quality >= k + 1  iff  x < 10^(-(2k+1)/20); numerators over 2^60, rounded down
+# (the true threshold is irrational and lies strictly between T / 2^60 and (T + 1) / 2^60)
+TTAB = [iroot((1 << 1200) // 10 ** (2 * k + 1), 20) for k in range(90)]
+CLIP_LO, CLIP_HI = Fraction(1, 10 ** 9), Fraction(10 ** 9 - 1, 10 ** 9)
 
 
 # ------------------------------------------------------------------ harness-side helpers (independent of pysam)
@@ -37,11 +56,14 @@ def case_reads(c):
     return out, n, len(c['fragments']) - n
 
 
-def observations(c):
-    """position -> list of (base, qual) in read order"""
+def observations(c, contig=None):
+    """position -> list of (base, qual) in read order (of all reads whatever their contig - that is what the code pools -
+    or only of the reads on one contig)"""
     obs = {}
     for r in case_reads(c)[0]:
-        if r.get('unmapped'):
+        if r.get('unmapped') or r.get('unplaced'):
+            continue
+        if contig is not None and read_contig(c, r) != contig:
             continue
         for q, p in aligned_pairs_py(r['cigar'], r['pos']):
             obs.setdefault(p, []).append((r['seq'][q], r['qual'][q]))
@@ -67,7 +89,7 @@ def md_decode_py(md, query):
     return ''.join(out) if qi == len(query) else None
 
 
-def call_spec(os_, ptab):
+def call_spec(os_, ptab, want_prob=False):
     """exact-rational arg-max of the likelihoods of sequtils.base_probabilities_to_likelihood.
     returns (expected base or None when rounding may decide, kind)"""
     probs = {}
@@ -81,6 +103,11 @@ def call_spec(os_, ptab):
             x *= p
         lik[b] = x * Fraction(4) ** (len(v) - 1)
     rank = sorted(lik.items(), key=lambda kv: -kv[1])
+    if want_prob:
+        total = sum(lik.values())
+        if len(rank) >= 2 and rank[0][1] == rank[1][1]:
+            return Fraction(0)
+        return rank[0][1] / total
     if len(rank) == 1:
         return rank[0][0], 'clear'
     (b1, v1), (b2, v2) = rank[0], rank[1]
@@ -89,6 +116,27 @@ def call_spec(os_, ptab):
     if (v1 - v2) * (1 << 20) >= v1:
         return b1, 'clear'
     return None, 'near'
+
+
+def phred_spec(p):
+    """rint(-10 log10(clip(1 - p, 1e-9, 1 - 1e-9))) over exact rationals: (quality, 'clear') or (None, 'near') when the
+    clipped 1 - p is within 2^-40 + 2^-30 relative of a threshold (IEEE rounding / libm may decide)"""
+    x = min(max(1 - p, CLIP_LO), CLIP_HI)
+    X = (x.numerator << 60) // x.denominator
+    if any(abs(X - T) <= (1 << 20) + (X >> 30) for T in TTAB):
+        return None, 'near'
+    return sum(1 for T in TTAB if X < T), 'clear'
+
+
+_PHRED_CACHE = {}
+
+
+def phred_of_column(os_, ptab):
+    """(quality, 'clear') | (None, 'near') of the call of one column, over exact rationals (cached per column)"""
+    k = tuple(os_)
+    if k not in _PHRED_CACHE:
+        _PHRED_CACHE[k] = phred_spec(call_spec(os_, ptab, want_prob=True)) if os_ else phred_spec(Fraction(0))
+    return _PHRED_CACHE[k]
 
 
 def tie_is_order_safe(os_):
@@ -119,26 +167,56 @@ def expected_meta(c):
     best = max(umis, key=lambda u: (umis.count(u), -umis.index(u)))
     mapqs = [max((0 if (r is None or r.get('unmapped')) else r['mapq']) for r in f['reads']) for f in c['fragments'][:nfrag]]
     return {'sample': c['sample'], 'umi': best, 'site': site, 'bc': c['bc'], 'nfrag': nfrag, 'overflow': overflow,
-            'strand': bool(r1['rev']), 'mapqs': mapqs}
+            'strand': bool(r1['rev']), 'mapqs': mapqs, 'chrom': expected_chrom(c)}
+
+
+def read_contig(c, r):
+    return r.get('contig', c.get('contig', 'chr1'))
+
+
+def expected_chrom(c):
+    """Molecule.chromosome = contig of the span of the fragment added last (Fragment.update_span: R1's contig when
+    R1 is mapped, else R2's; a fragment with no mapped read takes the contig its last placed read names; an
+    unplaced read names none)"""
+    n = case_reads(c)[1]
+    f = c['fragments'][n - 1]
+    mapped = [r for r in f['reads'] if r is not None and not r.get('unmapped') and not r.get('unplaced')]
+    if mapped:
+        return read_contig(c, mapped[0])
+    rs = [r for r in f['reads'] if r is not None]
+    return None if rs[-1].get('unplaced') else read_contig(c, rs[-1])
+
+
+def is_multicontig(c):
+    return len({read_contig(c, r) for r in case_reads(c)[0] if not r.get('unmapped') and not r.get('unplaced')}) > 1
+
+
+def chrom_ref(c):
+    ch = expected_chrom(c)
+    return c.get('other_refs', {}).get(ch, c['ref'])
+
 
 
 def model_input(c, ptab):
     m = expected_meta(c)
     reads = case_reads(c)[0]
     # only the reference window the reads can touch is passed (offset lo); outside it the model reads 'N'
-    ms = [r['pos'] for r in reads if not r.get('unmapped')]
+    ms = [r['pos'] for r in reads if not r.get('unmapped') and not r.get('unplaced')]
     lo = max(0, min(ms) - 3) if ms else 0
-    hi = max(r['pos'] + ref_len(r['cigar']) for r in reads if not r.get('unmapped')) + 3 if ms else 0
-    ref = c['ref'][lo:hi]
+    hi = max(r['pos'] + ref_len(r['cigar']) for r in reads if not r.get('unmapped') and not r.get('unplaced')) + 3 if ms else 0
+    ref = chrom_ref(c)[lo:hi]
     meta = [m['sample'], [m['umi']], ([] if m['site'] is None else [m['site']]), m['bc'], m['nfrag'], m['overflow'],
             [m['strand']], m['mapqs']]
     rd = []
     for r in reads:
-        if r.get('unmapped'):
+        if r.get('unmapped') or r.get('unplaced'):
             rd.append([r['pos'], [], r['seq'], r['qual']])
         else:
             rd.append([r['pos'], r['cigar'], r['seq'], r['qual']])
-    return [ptab, [lo, ref], ([] if c['max_N_span'] is None else [c['max_N_span']]), meta, rd]
+    # the whole request (mode 5): is a reference attached, the molecule's chromosome, the contig of every read
+    x = [bool(c.get('reference', True)), ([] if m['chrom'] is None else [CONTIGS.index(m['chrom'])]),
+         [CONTIGS.index(read_contig(c, r)) for r in reads]]
+    return [ptab, [lo, ref], ([] if c['max_N_span'] is None else [c['max_N_span']]), meta, rd, [], x]   # [] = the model's own ttab90
 
 
 def decode_model(mv):
@@ -147,8 +225,407 @@ def decode_model(mv):
         out.append({'start': r[0], 'cigar': r[1], 'seq': fw.as_str(r[2]), 'md': fw.as_str(r[3]), 'reverse': r[4],
                     'mapq': r[5], 'SM': fw.as_str(r[6]), 'DS': (r[7][0] if r[7] else None),
                     'RX': (fw.as_str(r[8][0]) if r[8] else None), 'BC': (fw.as_str(r[9][0]) if r[9] else None),
-                    'MI': (fw.as_str(r[10][0]) if r[10] else None), 'TF': r[11], 'classes': r[12]})
+                    'MI': (fw.as_str(r[10][0]) if r[10] else None), 'TF': r[11], 'classes': r[12], 'qual': r[13]})
     return out
+
+
+# ------------------------------------------------------------------ T: translator tie (coq/Gen/GenDedup.v)
+# Regenerates, from the current source, the expressions the proofs of Props/C15.v hinge on.  Every locator checks
+# the ROLE of what it translates (which loop / branch it sits in, what the guarded statements are) and refuses
+# (py2coq.Untranslatable -> pinned translation + correspondence, fw.PropBase._run) when the shape is not the one
+# the model gives it.
+import ast, hashlib
+import py2coq
+from py2coq import Untranslatable
+
+MOL = 'singlecellmultiomics/molecule/molecule.py'
+SEQ = 'singlecellmultiomics/utils/sequtils.py'
+GEN_DEDUP = os.path.join(fw.COQ, 'Gen', 'GenDedup.v')
+
+# value expressions of write_tags_to_psuedoreads the model knows (kind codes of Model/C15.v tag_value)
+TAG_KINDS = {'self.sample': 1, 'self.get_cut_site()[1]': 2, 'self.umi': 3, 'bc': 4, 'bc + self.umi': 5,
+             'len(self.fragments) + self.overflow_fragments': 6}
+TAG_GUARDS = {None: 0, "hasattr(self, 'get_cut_site') and self.get_cut_site() is not None": 1, 'self.umi is not None': 2}
+MODELLED_TAGS = ('SM', 'DS', 'RX', 'BC', 'MI', 'TF')
+
+
+def _u(n):
+    return ast.unparse(n)
+
+
+def _no_doc(body):
+    body = list(body)
+    if body and isinstance(body[0], ast.Expr) and isinstance(body[0].value, ast.Constant) and isinstance(body[0].value.value, str):
+        body = body[1:]
+    return body
+
+
+def _chunk(rel, src, node, name, params, body, comment=None):
+    seg = ast.get_source_segment(src, node) or ''
+    sha = hashlib.sha256(seg.encode()).hexdigest()
+    text = '(* source: %s line %d-%d sha256 %s\n   %s *)\nDefinition %s %s:=\n  %s.' % (
+        rel, node.lineno, node.end_lineno, sha, ' '.join((comment or seg).split()).replace('*)', '* )').replace('(*', '( *')[:300],
+        name, (params + ' ') if params else '', body)
+    return text, {'source': rel, 'lines': [node.lineno, node.end_lineno], 'sha256': sha, 'coq': name}
+
+
+def _uses(body, names, what):
+    import re
+    for nm in names:
+        if not re.search(r'(?<![A-Za-z0-9_\'])%s(?![A-Za-z0-9_\'])' % re.escape(nm), body):
+            raise Untranslatable('%s does not use %s (not the shape the model expects): %s' % (what, nm, body))
+
+
+def _char(n, what):
+    if not (isinstance(n, ast.Constant) and isinstance(n.value, str) and len(n.value) == 1):
+        raise Untranslatable('%s: expected a one-character string constant, found %s' % (what, _u(n)))
+    return ord(n.value)
+
+
+def _the_loop(fn, what, pred):
+    loops = [n for n in ast.walk(fn) if isinstance(n, ast.For) and pred(n)]
+    if len(loops) != 1:
+        raise Untranslatable('%s: expected exactly one matching for-loop, found %d' % (what, len(loops)))
+    return loops[0]
+
+
+def tr_get_cigar(repo, chunks, meta):
+    path = os.path.join(repo, MOL)
+    src = open(path).read()
+    fn = py2coq.find_function(ast.parse(src), 'Molecule.get_CIGAR')
+    loop = _the_loop(fn, 'get_CIGAR', lambda n: _u(n.iter) == 'self.get_aligned_blocks()')
+    if not (isinstance(loop.target, ast.Tuple) and len(loop.target.elts) == 2 and all(isinstance(e, ast.Name) for e in loop.target.elts)):
+        raise Untranslatable('get_CIGAR: loop target is not (start, end)')
+    s_name, e_name = [e.id for e in loop.target.elts]
+    env = {s_name: 'start', e_name: 'end_', 'prev_end': 'prev_end', 'alignment_start': 'alignment_start'}
+
+    def appends(stmts):
+        out = []
+        for st in stmts:
+            if isinstance(st, ast.Expr) and isinstance(st.value, ast.Call) and _u(st.value.func) == 'CIGAR.append':
+                a = st.value.args
+                if len(a) != 1 or not (isinstance(a[0], ast.Tuple) and len(a[0].elts) == 2):
+                    raise Untranslatable('get_CIGAR: CIGAR.append of something that is not an (operation, amount) pair')
+                out.append(a[0])
+        return out
+    # role: the gap operation is appended under `if prev_end is not None` (not before the first block), the block
+    # operation unconditionally right after it, then prev_end = end
+    body = list(loop.body)
+    if not (len(body) >= 3 and isinstance(body[0], ast.If) and _u(body[0].test) == 'prev_end is not None' and not body[0].orelse):
+        raise Untranslatable('get_CIGAR: the loop does not start with `if prev_end is not None:`')
+    gap = appends(body[0].body)
+    blk = appends(body[1:2])
+    if len(gap) != 1 or len(body[0].body) != 1 or len(blk) != 1 or len(appends(body[2:])) != 0:
+        raise Untranslatable('get_CIGAR: expected one guarded gap append followed by one block append')
+    if _u(body[2]) != 'prev_end = %s' % e_name:
+        raise Untranslatable('get_CIGAR: expected `prev_end = %s` after the appends, found %s' % (e_name, _u(body[2])))
+    tr = py2coq.ExprTranslator(env=env)
+    for tup, nm, par, use in ((gap[0], 'gap', '(start prev_end : Z)', ('start', 'prev_end')),
+                              (blk[0], 'block', '(start end_ : Z)', ('start', 'end_'))):
+        code = _char(tup.elts[0], 'get_CIGAR %s operation' % nm)
+        t, m = _chunk(MOL, src, tup.elts[0], 'gen_cigar_%s_op' % nm, ': Z', '%d' % code)
+        chunks.append(t); meta.append(m)
+        b = tr.z(tup.elts[1])
+        _uses(b, use, 'get_CIGAR %s length' % nm)
+        t, m = _chunk(MOL, src, tup.elts[1], 'gen_cigar_%s_len' % nm, par + ' : Z', b)
+        chunks.append(t); meta.append(m)
+    # alignment_start: first block start, then min(alignment_start, start)
+    rest = body[3:]
+    if not (len(rest) == 1 and isinstance(rest[0], ast.If) and _u(rest[0].test) == 'alignment_start is None'
+            and _u(rest[0].body[0]) == 'alignment_start = %s' % s_name):
+        raise Untranslatable('get_CIGAR: alignment_start bookkeeping not recognised')
+    upd = [st for st in rest[0].orelse if isinstance(st, ast.Assign) and _u(st.targets[0]) == 'alignment_start']
+    if len(upd) != 1:
+        raise Untranslatable('get_CIGAR: expected one alignment_start update in the else branch')
+    b = tr.z(upd[0].value)
+    _uses(b, ('alignment_start', 'start'), 'get_CIGAR alignment_start update')
+    t, m = _chunk(MOL, src, upd[0].value, 'gen_alignment_start', '(alignment_start start : Z) : Z', b)
+    chunks.append(t); meta.append(m)
+    ret = [n for n in ast.walk(fn) if isinstance(n, ast.Return)]
+    if len(ret) != 1 or _u(ret[0].value) != '(CIGAR, alignment_start, alignment_end)':
+        raise Untranslatable('get_CIGAR: return value not (CIGAR, alignment_start, alignment_end)')
+
+
+def tr_partial_reads(repo, chunks, meta):
+    path = os.path.join(repo, MOL)
+    src = open(path).read()
+    fn = py2coq.find_function(ast.parse(src), 'Molecule.generate_partial_reads')
+    loop = _the_loop(fn, 'generate_partial_reads', lambda n: _u(n.iter) == 'CIGAR' and _u(n.target) == '(operation, amount)')
+    if not any(isinstance(st, ast.Assign) and _u(st) == 'CIGAR, alignment_start, alignment_end = self.get_CIGAR()' for st in fn.body):
+        raise Untranslatable('generate_partial_reads: CIGAR does not come from self.get_CIGAR()')
+    if len(loop.body) != 1 or not isinstance(loop.body[0], ast.If):
+        raise Untranslatable('generate_partial_reads: loop body is not one if/elif over the operation')
+    top = loop.body[0]
+    if not (len(top.orelse) == 1 and isinstance(top.orelse[0], ast.If) and not top.orelse[0].orelse):
+        raise Untranslatable('generate_partial_reads: expected `if operation == .. elif operation == ..` without else')
+    branches = []
+    for br in (top, top.orelse[0]):
+        t_ = br.test
+        if not (isinstance(t_, ast.Compare) and len(t_.ops) == 1 and isinstance(t_.ops[0], ast.Eq) and _u(t_.left) == 'operation'):
+            raise Untranslatable('generate_partial_reads: branch test is not `operation == <char>`')
+        branches.append((_char(t_.comparators[0], 'generate_partial_reads branch'), br, t_.comparators[0]))
+    # which branch is the gap branch: the one whose first statement is an `if` that yields
+    def is_gap(br):
+        return bool(br.body) and isinstance(br.body[0], ast.If) and bool(br.body[0].body) and \
+            isinstance(br.body[0].body[0], ast.Expr) and isinstance(br.body[0].body[0].value, ast.Yield)
+    gaps = [b for b in branches if is_gap(b[1])]
+    blks = [b for b in branches if not is_gap(b[1])]
+    if len(gaps) != 1 or len(blks) != 1:
+        raise Untranslatable('generate_partial_reads: could not tell the gap branch from the block branch')
+    (gcode, gbr, gnode), (bcode, bbr, bnode) = gaps[0], blks[0]
+    for nm, code, node in (('gap', gcode, gnode), ('block', bcode, bnode)):
+        t, m = _chunk(MOL, src, node, 'gen_branch_%s_op' % nm, ': Z', '%d' % code)
+        chunks.append(t); meta.append(m)
+    # ---- gap branch: split test, what a split does, what keeping the gap does
+    sp = gbr.body[0]
+    final_yield = [st for st in fn.body if isinstance(st, ast.Expr) and isinstance(st.value, ast.Yield)]
+    if len(final_yield) != 1 or fn.body[-1] is not final_yield[0]:
+        raise Untranslatable('generate_partial_reads: the function does not end with the final yield')
+    tup = _u(final_yield[0].value.value)
+    if tup != '(reference_start, reference_end, partial_sequence, partial_phred, partial_CIGAR, partial_MD)':
+        raise Untranslatable('generate_partial_reads: yielded tuple changed: %s' % tup)
+    if _u(sp.body[0].value.value) != tup:
+        raise Untranslatable('generate_partial_reads: the split yields a different tuple than the final yield')
+    cleared = sorted(_u(st) for st in sp.body[1:])
+    if cleared != sorted('%s = []' % x for x in ('partial_CIGAR', 'partial_MD', 'partial_sequence', 'partial_phred')):
+        raise Untranslatable('generate_partial_reads: a split does not clear exactly the four partial lists: %r' % cleared)
+    keep = [_u(st) for st in sp.orelse]
+    if "partial_CIGAR.append(f'{amount}{operation}')" not in keep or any(('yield' in k or '= []' in k) for k in keep):
+        raise Untranslatable('generate_partial_reads: keeping a gap does not append it to partial_CIGAR')
+    if [_u(st) for st in gbr.body[1:]] != ['reference_position += amount']:
+        raise Untranslatable('generate_partial_reads: the gap branch does not advance reference_position by amount')
+    tr = py2coq.ExprTranslator(env={'max_N_span is not None': 'has_max', 'max_N_span': 'max_N_span', 'amount': 'amount'})
+    tr.bool_env = {'max_N_span is not None'}
+    b = tr.b(sp.test)
+    _uses(b, ('has_max', 'max_N_span', 'amount'), 'generate_partial_reads split test')
+    t, m = _chunk(MOL, src, sp.test, 'gen_split', '(has_max : bool) (max_N_span amount : Z) : bool', b)
+    chunks.append(t); meta.append(m)
+    # ---- block branch
+    want = ['query_index_end += amount', None, 'start_fetch = reference_position', 'reference_position += amount',
+            'reference_end = reference_position', "partial_CIGAR.append(f'{amount}{operation}')",
+            'predicted_sequence, phred_scores = self.extract_stretch_from_dict(obs, start_fetch, reference_end)',
+            'partial_sequence.append(predicted_sequence)', 'partial_phred.append(phred_scores)',
+            'partial_MD.append((start_fetch, reference_end))']
+    got = [st for st in bbr.body if _u(st) != 'query_index_end += amount']
+    want = [w for w in want if w != 'query_index_end += amount']
+    if len(got) != len(want):
+        raise Untranslatable('generate_partial_reads: block branch has %d statements, expected %d' % (len(got), len(want)))
+    first = None
+    for st, w in zip(got, want):
+        if w is None:
+            first = st
+        elif _u(st) != w:
+            raise Untranslatable('generate_partial_reads: block branch statement %r, expected %r' % (_u(st), w))
+    if not (isinstance(first, ast.If) and not first.orelse and [_u(s) for s in first.body] == ['reference_start = reference_position']):
+        raise Untranslatable('generate_partial_reads: the first-block test does not guard `reference_start = reference_position`')
+    tr = py2coq.ExprTranslator(env={'len(partial_CIGAR)': 'n_partial_CIGAR'})
+    b = tr.b(first.test)
+    _uses(b, ('n_partial_CIGAR',), 'generate_partial_reads first-block test')
+    t, m = _chunk(MOL, src, first.test, 'gen_first_block', '(n_partial_CIGAR : Z) : bool', b)
+    chunks.append(t); meta.append(m)
+
+
+def tr_md(repo, chunks, meta):
+    path = os.path.join(repo, SEQ)
+    src = open(path).read()
+    fn = py2coq.find_function(ast.parse(src), 'create_MD_tag')
+    body = _no_doc(fn.body)
+    if [_u(s) for s in body[:2]] != ['no_change = 0', 'md = []'] or len(body) != 5:
+        raise Untranslatable('create_MD_tag: body shape changed')
+    loop, fin, ret = body[2], body[3], body[4]
+    if not (isinstance(loop, ast.For) and _u(loop.target) == '(ref_base, query_base)'
+            and _u(loop.iter) == 'zip(reference_seq.upper(), query_seq)' and len(loop.body) == 1 and isinstance(loop.body[0], ast.If)):
+        raise Untranslatable('create_MD_tag: loop is not `for ref_base, query_base in zip(reference_seq.upper(), query_seq)`')
+    iff = loop.body[0]
+    if [_u(s) for s in iff.body] != ['no_change += 1']:
+        raise Untranslatable('create_MD_tag: a matching column does not just count (no_change += 1)')
+    el = iff.orelse
+    if not (len(el) == 3 and isinstance(el[0], ast.If) and not el[0].orelse and [_u(s) for s in el[0].body] == ['md.append(str(no_change))']
+            and _u(el[1]) == 'md.append(ref_base)' and _u(el[2]) == 'no_change = 0'):
+        raise Untranslatable('create_MD_tag: a mismatching column is not encoded as [count if > 0] + reference base + reset')
+    if not (isinstance(fin, ast.If) and not fin.orelse and [_u(s) for s in fin.body] == ['md.append(str(no_change))']
+            and _u(fin.test) == _u(el[0].test)):
+        raise Untranslatable('create_MD_tag: the trailing count is not flushed by the same test')
+    if _u(ret) != "return ''.join(md)":
+        raise Untranslatable('create_MD_tag: return value changed')
+    tr = py2coq.ExprTranslator(env={'ref_base.upper()': 'ref_up', 'ref_base': 'ref_up', 'query_base': 'query_base'})
+    b = tr.b(iff.test)
+    _uses(b, ('ref_up', 'query_base'), 'create_MD_tag match test')
+    t, m = _chunk(SEQ, src, iff.test, 'gen_md_match', '(ref_up query_base : Z) : bool', b)
+    chunks.append(t); meta.append(m)
+    tr = py2coq.ExprTranslator(env={})
+    b = tr.b(fin.test)
+    _uses(b, ('no_change',), 'create_MD_tag flush test')
+    t, m = _chunk(SEQ, src, fin.test, 'gen_md_flush', '(no_change : Z) : bool', b)
+    chunks.append(t); meta.append(m)
+
+
+def tr_base_call(repo, chunks, meta):
+    path = os.path.join(repo, SEQ)
+    src = open(path).read()
+    fn = py2coq.find_function(ast.parse(src), 'phredscores_to_base_call')
+    body = _no_doc(fn.body)
+    asg = [st for st in body if isinstance(st, ast.Assign) and _u(st.targets[0]) == 'base_probs']
+    if len(asg) != 1 or not _u(asg[0].value).endswith('.most_common()') or not _u(asg[0].value).startswith('Counter('):
+        raise Untranslatable('phredscores_to_base_call: base_probs is not Counter(..).most_common()')
+    ifs = [st for st in body if isinstance(st, ast.If)]
+    if len(ifs) != 1 or ifs[0].orelse or len(ifs[0].body) != 1 or not isinstance(ifs[0].body[0], ast.Return):
+        raise Untranslatable('phredscores_to_base_call: expected exactly one `if <undecidable>: return ..`')
+    r = ifs[0].body[0].value
+    if not (isinstance(r, ast.Tuple) and len(r.elts) == 2 and isinstance(r.elts[1], ast.Constant) and isinstance(r.elts[1].value, int)
+            and not isinstance(r.elts[1].value, bool)):
+        raise Untranslatable('phredscores_to_base_call: the no-call result is not (<base>, <int>)')
+    if not (body[-1] is not ifs[0] and isinstance(body[-1], ast.Return) and _u(body[-1].value) == '(base_probs[0][0], base_probs[0][1])'
+            and body[-2] is ifs[0]):
+        raise Untranslatable('phredscores_to_base_call: the call is not (base_probs[0][0], base_probs[0][1]) right after the test')
+    tr = py2coq.ExprTranslator(env={'len(base_probs)': 'n', 'base_probs[0][1] == base_probs[1][1]': 'eq01'})
+    tr.bool_env = {'base_probs[0][1] == base_probs[1][1]'}
+    b = tr.b(ifs[0].test)
+    _uses(b, ('n', 'eq01'), 'phredscores_to_base_call no-call test')
+    t, m = _chunk(SEQ, src, ifs[0].test, 'gen_no_call', '(n : Z) (eq01 : bool) : bool', b)
+    chunks.append(t); meta.append(m)
+    t, m = _chunk(SEQ, src, r, 'gen_no_call_base', ': Z', '%d' % _char(r.elts[0], 'no-call base'))
+    chunks.append(t); meta.append(m)
+    t, m = _chunk(SEQ, src, r, 'gen_no_call_prob', ': Z', '%d' % r.elts[1].value)
+    chunks.append(t); meta.append(m)
+
+
+def tr_tags(repo, chunks, meta):
+    path = os.path.join(repo, MOL)
+    src = open(path).read()
+    fn = py2coq.find_function(ast.parse(src), 'Molecule.write_tags_to_psuedoreads')
+    loops = [st for st in fn.body if isinstance(st, ast.For) and _u(st.iter) == 'reads' and _u(st.target) == 'read']
+    if len(loops) != 1:
+        raise Untranslatable('write_tags_to_psuedoreads: expected one `for read in reads` loop')
+    rows, locals_ = [], {}
+
+    def visit(stmts, guard):
+        for st in stmts:
+            if isinstance(st, ast.Expr) and isinstance(st.value, ast.Call) and _u(st.value.func) == 'read.set_tag':
+                a = st.value.args
+                if len(a) != 2 or st.value.keywords or not (isinstance(a[0], ast.Constant) and isinstance(a[0].value, str) and len(a[0].value) == 2):
+                    raise Untranslatable('write_tags_to_psuedoreads: set_tag call not of the form set_tag("XX", value)')
+                rows.append((a[0].value, guard, _u(a[1]), st))
+            elif isinstance(st, ast.If) and not st.orelse and guard is None:
+                visit(st.body, _u(st.test))
+            elif isinstance(st, ast.Assign) and len(st.targets) == 1 and isinstance(st.targets[0], ast.Name):
+                locals_[st.targets[0].id] = (_u(st.value), guard)
+            elif isinstance(st, ast.Expr) and isinstance(st.value, ast.Constant):
+                pass
+            else:
+                raise Untranslatable('write_tags_to_psuedoreads: statement outside the recognised shape: %s' % _u(st)[:80])
+    visit(loops[0].body, None)
+    if locals_.get('bc', (None,))[0] != 'list(self.get_barcode_sequences())[0]' and any(v in ('bc', 'bc + self.umi') for _, _, v, _ in rows):
+        raise Untranslatable('write_tags_to_psuedoreads: bc is not list(self.get_barcode_sequences())[0]')
+    out, seen = [], set()
+    for tag, guard, val, st in rows:
+        if tag in seen:
+            raise Untranslatable('write_tags_to_psuedoreads: tag %s set twice' % tag)
+        seen.add(tag)
+        kind = TAG_KINDS.get(val, 0)
+        g = TAG_GUARDS.get(guard)
+        if tag in MODELLED_TAGS:
+            if kind == 0 or g is None:
+                raise Untranslatable('write_tags_to_psuedoreads: tag %s = %s under guard %r is outside the modelled forms' % (tag, val, guard))
+        else:
+            kind, g = 0, (g if g is not None else 3)      # informational tag the model does not describe
+        out.append('(%d, %d, %d) (* %s %s *)' % (ord(tag[0]) * 256 + ord(tag[1]), g, kind, tag, val.replace('*)', '* )')))
+    body = '[ ' + ';\n    '.join(o.split(' (*')[0] for o in out) + ' ]'
+    t, m = _chunk(MOL, src, loops[0], 'gen_tags', ': list (Z * Z * Z)', body,
+                  comment='(tag code = 256*c0+c1, guard: 0 always 1 cut site known 2 umi known 3 other, value kind: 1 sample 2 site '
+                          '3 umi 4 barcode 5 barcode+umi 6 fragments+overflow 0 not modelled) ' + ' '.join(r[0] for r in rows))
+    chunks.append(t); meta.append(m)
+    tf = [st for tag, _, _, st in rows if tag == 'TF']
+    if tf:
+        tr = py2coq.ExprTranslator(env={'len(self.fragments)': 'n_fragments', 'self.overflow_fragments': 'overflow'})
+        b = tr.z(tf[0].value.args[1])
+        _uses(b, ('n_fragments', 'overflow'), 'TF value')
+        t, m = _chunk(MOL, src, tf[0].value.args[1], 'gen_TF', '(n_fragments overflow : Z) : Z', b)
+        chunks.append(t); meta.append(m)
+    else:
+        raise Untranslatable('write_tags_to_psuedoreads: no TF tag')
+    # deduplicate_majority passes every produced read to write_tags_to_psuedoreads
+    dm = py2coq.find_function(ast.parse(src), 'Molecule.deduplicate_majority')
+    if not any('self.write_tags_to_psuedoreads(' in _u(st) for st in dm.body):
+        raise Untranslatable('deduplicate_majority does not call write_tags_to_psuedoreads')
+
+
+def tr_quality(repo, chunks, meta):
+    path = os.path.join(repo, MOL)
+    src = open(path).read()
+    fn = py2coq.find_function(ast.parse(src), 'Molecule.extract_stretch_from_dict')
+    clips = [n for n in ast.walk(fn) if isinstance(n, ast.Call) and _u(n.func) == 'np.clip']
+    if len(clips) != 1 or len(clips[0].args) != 3 or clips[0].keywords or _u(clips[0].args[0]) != '1 - base_calling_probs':
+        raise Untranslatable('extract_stretch_from_dict: expected one np.clip(1 - base_calling_probs, lo, hi)')
+    # role: phred_scores = np.rint(-10 * np.log10(np.clip(..))).astype('B')
+    asg = [st for st in fn.body if isinstance(st, ast.Assign) and _u(st.targets[0]) == 'phred_scores']
+    if len(asg) != 1 or _u(asg[0].value) != "np.rint(-10 * np.log10(%s)).astype('B')" % _u(clips[0]):
+        raise Untranslatable('extract_stretch_from_dict: phred_scores is not np.rint(-10 * np.log10(np.clip(..))).astype("B")')
+    for nm, arg in (('lo', clips[0].args[1]), ('hi', clips[0].args[2])):
+        seg = ast.get_source_segment(src, arg)
+        try:
+            fr = Fraction(seg)
+        except Exception:
+            raise Untranslatable('extract_stretch_from_dict: clip bound %r is not a decimal literal' % seg)
+        if not 0 < fr < 1:
+            raise Untranslatable('extract_stretch_from_dict: clip bound %s outside (0,1)' % seg)
+        t, m = _chunk(MOL, src, arg, 'gen_clip_%s' % nm, ': Z * Z', '(%d, %d)' % (fr.numerator, fr.denominator))
+        chunks.append(t); meta.append(m)
+    gets = [n for n in ast.walk(fn) if isinstance(n, ast.Subscript) and isinstance(n.value, ast.Call) and _u(n.value.func) == 'base_call_dict.get']
+    if len(gets) != 2 or len({_u(g.value) for g in gets}) != 1 or sorted(_u(g.slice) for g in gets) != ['0', '1']:
+        raise Untranslatable('extract_stretch_from_dict: base and probability are not read by the same base_call_dict.get(.., default)')
+    d = gets[0].value.args[1] if len(gets[0].value.args) == 2 else None
+    if not (isinstance(d, ast.Tuple) and len(d.elts) == 2 and isinstance(d.elts[1], ast.Constant) and isinstance(d.elts[1].value, int)
+            and not isinstance(d.elts[1].value, bool)):
+        raise Untranslatable('extract_stretch_from_dict: default call is not (<base>, <int>)')
+    t, m = _chunk(MOL, src, d, 'gen_default_base', ': Z', '%d' % _char(d.elts[0], 'default base'))
+    chunks.append(t); meta.append(m)
+    t, m = _chunk(MOL, src, d, 'gen_default_prob', ': Z', '%d' % d.elts[1].value)
+    chunks.append(t); meta.append(m)
+    if _u(fn.body[-1]) != 'return (predicted_sequence, phred_scores)':
+        raise Untranslatable('extract_stretch_from_dict: return value changed')
+
+
+def tr_dedup_reads(repo, chunks, meta):
+    """get_dedup_reads: no chromosome -> no records; the MD tag is built from the reference bases of the M blocks"""
+    path = os.path.join(repo, MOL)
+    src = open(path).read()
+    fn = py2coq.find_function(ast.parse(src), 'Molecule.get_dedup_reads')
+    body = _no_doc(fn.body)
+    first = body[0]
+    skip = isinstance(first, ast.If) and _u(first.test) == 'self.chromosome is None' and not first.orelse and \
+        len(first.body) == 1 and isinstance(first.body[0], ast.Return) and _u(first.body[0]) in ('return None', 'return')
+    if not skip:
+        raise Untranslatable('get_dedup_reads: does not start with `if self.chromosome is None: return None`')
+    t, m = _chunk(MOL, src, first, 'gen_skip_without_chromosome', ': bool', 'true')
+    chunks.append(t); meta.append(m)
+    txt = _u(fn)
+    need = ["''.join((self.reference.fetch(self.chromosome, block_start, block_end) for block_start, block_end in partial_MD))",
+            "consensus=''.join(partial_sequence)", "phred_scores=array('B', np.concatenate(partial_phred))",
+            "cigarstring=''.join(partial_CIGAR)", 'start=reference_start']
+    for n_ in need:
+        if n_ not in txt:
+            raise Untranslatable('get_dedup_reads: expected %s' % n_)
+    loops = [st for st in body if isinstance(st, ast.For)]
+    if len(loops) != 1 or 'self.generate_partial_reads(obs, max_N_span=max_N_span)' != _u(loops[0].iter):
+        raise Untranslatable('get_dedup_reads: does not iterate over generate_partial_reads(obs, max_N_span=max_N_span)')
+
+
+def regen_dedup(out=None, repo=None):
+    out = out or GEN_DEDUP
+    try:
+        chunks, meta = [], []
+        for f in (tr_get_cigar, tr_partial_reads, tr_md, tr_base_call, tr_tags, tr_quality, tr_dedup_reads):
+            f(repo or fw.REPO, chunks, meta)
+        os.makedirs(os.path.dirname(out), exist_ok=True)
+        py2coq.write_gen(out, '', chunks)
+        return meta
+    except BaseException:
+        # fail closed: never leave a stale generated file behind for the proofs / the model to use
+        for ext in ('.v', '.vo', '.vos', '.vok', '.glob'):
+            if os.path.exists(out[:-2] + ext):
+                os.remove(out[:-2] + ext)
+        raise
 
 
 # ------------------------------------------------------------------ generators
@@ -342,6 +819,54 @@ class Gen:
         return {'ref': ref, 'klass': 'nla', 'fragments': frags, 'sample': 'TIE_%d' % rng.randint(0, 99), 'umi': 'ACGTAC',
                 'bc': 'AACCGGTT', 'max_N_span': None, 'path': 'dedup', 'no_source': False, 'max_fragments': None}
 
+    def xcase(self, kind, depth_max=6):
+        """inputs outside the hypotheses of the block theorem: no reference attached, no aligned base, no chromosome,
+        reads on two contigs in one molecule (chimeric pair / merged molecules)"""
+        rng = self.rng
+        if kind in ('nocov', 'nochrom'):
+            ref = self.ref()
+            n = rng.randint(4, 30)
+            r = {'pos': rng.randrange(1000, 2000), 'cigar': [], 'seq': ''.join(rng.choice(BASES) for _ in range(n)),
+                 'qual': [rng.randint(2, 41) for _ in range(n)], 'rev': False, 'mapq': 0, 'unmapped': True}
+            if kind == 'nochrom':
+                r['unplaced'] = True
+            c = {'ref': ref, 'klass': 'base', 'fragments': [{'reads': [r, None]}], 'sample': 'X_%d' % rng.randint(0, 99),
+                 'umi': 'ACG', 'bc': 'AAAA', 'max_N_span': rng.choice([None, 10]), 'path': rng.choice(['dedup', 'write']),
+                 'no_source': True, 'max_fragments': None, 'contig': rng.choice(CONTIGS), 'target': 0,
+                 'reference': rng.random() < 0.5, 'xkind': kind}
+            if c['path'] == 'write':
+                c['max_N_span'] = None
+            return c
+        while True:
+            c = self.molecule(depth_max)
+            c['max_fragments'] = None
+            c['target'] = 0
+            if c['path'] == 'write':
+                c['no_source'] = True
+            if kind == 'noref':
+                c['reference'] = False
+                break
+            other = rng.choice([x for x in CONTIGS if x != c['contig']])
+            c['other_refs'] = {other: self.ref()}
+            if kind == 'chimeric':
+                mates = [f['reads'][1] for f in c['fragments'] if f['reads'][1] is not None and not f['reads'][1].get('unmapped')]
+                if not mates:
+                    continue
+                for r in rng.sample(mates, rng.randint(1, len(mates))):
+                    r['contig'] = other
+                break
+            if kind == 'merged' and len(c['fragments']) >= 2 and not any('umi' in f for f in c['fragments']) \
+                    and not any(r is not None and r.get('unmapped') for f in c['fragments'] for r in f['reads']):
+                k = rng.randint(1, len(c['fragments']) - 1)
+                for f in c['fragments'][k:]:
+                    for r in f['reads']:
+                        if r is not None:
+                            r['contig'] = other
+                c['merge_from'] = k
+                break
+        c['xkind'] = kind
+        return c
+
     def column(self, obs, ref):
         """one reference position observed by len(obs) CHIC fragments (one 1M read each) with the given (base, qual)"""
         P = 1000
@@ -390,6 +915,17 @@ def cigar_blocks(start, cigar):
 
 
 KEY_D31 = 'C15:error:TypeError'
+KEY_D35 = 'C15:multicontig'      # finding D35 (fixes/C15-D35.md): reads on two contigs are pooled by position
+
+
+def refutes_on_contig(c, im):
+    """a record aligns a position that no read of the molecule covers on the record's contig"""
+    for g_ in im.get('records', []):
+        on = observations(c, contig=g_['contig'])
+        if any(p not in on for s_, e_ in (cigar_blocks(g_['start'], g_['cigar']) or []) for p in range(s_, e_)):
+            return True
+    return False
+
 TARGETS = [['chr1', 'chr2', 'chr10', 'chrX'], ['chrM', 'chr10', 'chrX', 'chr2', 'chr1'], ['chr2', 'chr10']]   # = impl_c15.TARGET_CONTIGS
 
 
@@ -404,17 +940,32 @@ class Prop(fw.PropBase):
         'modelled not verified: pysam/htslib (AlignedSegment construction, BAM write/read-back, get_aligned_pairs; the model\'s '
         'aligned_pairs is compared with pysam on every generated read), str(int) = Decimal N.to_uint digits, '
         'collections.Counter.most_common as a stable descending sort, more_itertools.consecutive_groups as runs',
-        'phred quality VALUES of the consensus (rint(-10 log10 ..)) are outside the model; only their count is checked',
+        'phred qualities: rint(-10 log10 x) is modelled as the number of thresholds 10^(-(2k+1)/20), k = 0..89, above the clipped '
+        'x = 1 - p over exact rationals; the thresholds are passed as numerators over 2^60 computed by the harness with integer '
+        '20th roots (the true thresholds are irrational); libm log10 and IEEE rounding are NOT modelled: a quality is compared only '
+        'when x is further than 2^-40 + 2^-30 relative from every threshold (excluded ones are counted in the evidence)',
+        'translator tie (tools/c15.py regen_dedup -> coq/Gen/GenDedup.v, fail closed with role checks): gap / block length and operation '
+        'characters of get_CIGAR, split and first-block tests of generate_partial_reads, match / flush tests of create_MD_tag, no-call '
+        'test and result of phredscores_to_base_call, clip bounds and default call of extract_stretch_from_dict, tag table of '
+        'write_tags_to_psuedoreads; the statement ORDER inside those functions is checked by shape, not translated; everything else of '
+        'the model (runs, likelihood formula, most_common, the state machine around the translated tests) is tied by K only',
+        'CIGAR characters M/N are taken to be pysam operations 0/3 (cigarstring parsing by pysam)',
         'the expected DS/RX/SM/TF values are computed by the harness from the generated geometry (site rules are C09\'s subject)',
         'fragment-to-molecule association (C06) is taken from the implementation: the harness checks that all generated '
         'fragments were associated and skips (counts) a case otherwise',
     ]
     ASSUMPTIONS = [
-        'a reference is attached to the molecule (Molecule.reference); without one get_dedup_reads raises AttributeError',
-        'all reads of the molecule map to one contig; base qualities within 0..93; fewer than ~500 observations per position '
-        '(beyond that np.power(0.25, n-1) underflows)',
+        'block / MD / call theorems: a reference is attached and all reads that contribute an observation map to the molecule\'s '
+        'chromosome.  Outside: no reference -> AttributeError and no record, no aligned base -> ValueError, no chromosome -> no '
+        'record (C15_no_reference_raises / C15_no_coverage_raises / C15_no_chromosome_skips / C15_request_outcome; K compares only '
+        'records-vs-none there, the exception type is recorded in the evidence); reads on several contigs are pooled by position '
+        '(C15_multicontig_refuted, finding D35: the statement does not hold for such molecules; K pins the pooling)',
+        'base qualities within 0..93; fewer than ~500 observations per position (beyond that np.power(0.25, n-1) underflows)',
         'reference bases are letters (no digits) so that the MD string is uniquely readable',
     ]
+
+    def regen(self):
+        return regen_dedup()
 
     # ---------------------------------------------------------------- inputs
     def cases(self):
@@ -431,6 +982,12 @@ class Prop(fw.PropBase):
             cs.append(g.molecule(10 if quick else self.rng.choice([10, 20, 40])))
         for _ in range(80 if quick else 800):
             cs.append(g.conflict())
+        # the request as a whole: no reference, no aligned base, no chromosome, two contigs in one molecule
+        self.n_x = 0
+        for kind, n in (('noref', 14), ('nocov', 6), ('nochrom', 6), ('chimeric', 16), ('merged', 16)):
+            for _ in range(n if quick else 10 * n):
+                cs.append(g.xcase(kind))
+                self.n_x += 1
         ref = g.ref().upper()
         W = 9
         for mask in range(1, 1 << W, 2):
@@ -445,6 +1002,21 @@ class Prop(fw.PropBase):
                 cs.append(g.column(list(obs), ref))
                 self.n_columns += 1
         return cs
+
+    def phred_probes(self):
+        """probabilities (floats, as exact fractions) for the quality function alone: around every rounding threshold
+        (just inside / just outside the margin, and well inside each band), at the clip bounds, and random ones"""
+        rng = self.rng
+        xs = []
+        for T in TTAB:
+            t = T / 2 ** 60
+            for rel in (2.0 ** -12, -2.0 ** -12, 2.0 ** -22, -2.0 ** -22, 2.0 ** -35, -2.0 ** -35, 0.05, -0.05):
+                xs.append(t * (1 + rel))
+        xs += [1e-9, 0.9e-9, 1.1e-9, 2e-10, 0.0, 1.0, 0.999999999, 0.9999999999, 0.5, 1e-12, 1 - 1e-12]
+        for _ in range(300 if self.tier == 'quick' else 6000):
+            xs.append(10 ** rng.uniform(-10.5, 0))
+        ps = [1.0 - x for x in xs] + [rng.random() for _ in range(100)]
+        return [list(float(p).as_integer_ratio()) for p in ps]
 
     def histories(self):
         """operation sequences on ONE molecule object: consensus requests between add_fragment / add_molecule"""
@@ -547,7 +1119,7 @@ class Prop(fw.PropBase):
                 ops.append([1, [enc_frag(f) for f in o['fragments']]])
             else:
                 ops.append([2, [] if o['max_N_span'] is None else [o['max_N_span']]])
-        return [ptab, [lo, h['ref'][lo:hi]], [m['sample'], ([] if m['site'] is None else [m['site']]), m['bc'], [m['strand']]], ops]
+        return [ptab, [lo, h['ref'][lo:hi]], [m['sample'], ([] if m['site'] is None else [m['site']]), m['bc'], [m['strand']]], ops, []]
 
     def cli_libs(self):
         g = Gen(self.rng)
@@ -593,14 +1165,21 @@ class Prop(fw.PropBase):
         """direct Python transcription of the statements of Props/C15.v, evaluated on what pysam read back.
         returns list of (key, text)"""
         v = []
+        recs = impl.get('records', [])
+        obs = observations(c)          # pooled over contigs: what the code builds its columns from
+        covered = sorted(obs)
+        m = expected_meta(c)
+        # outside the hypotheses of the statement: nothing is constrained but "no half-made output"
+        if not covered or m['chrom'] is None:
+            if recs:
+                v.append(('outcome', '%d record(s) for a molecule without an aligned base / without chromosome' % len(recs)))
+            return v
+        if not c.get('reference', True) and impl.get('error'):
+            if recs:
+                v.append(('outcome', 'the request raised %s but %d record(s) were written' % (impl['error'].split(':')[0], len(recs))))
+            return v
         if impl.get('error'):
             return [('error', 'consensus raised ' + impl['error'])]
-        recs = impl['records']
-        obs = observations(c)
-        covered = sorted(obs)
-        if not covered:
-            return v
-        m = expected_meta(c)
         # blocks exact
         got = []
         for r in recs:
@@ -634,7 +1213,7 @@ class Prop(fw.PropBase):
                 v.append(('lengths', 'seq %d, qual %d, CIGAR query length %d' % (len(r['seq']), r['nqual'], qlen)))
             bl = cigar_blocks(r['start'], r['cigar']) or []
             pos = [p for s, e in bl for p in range(s, e)]
-            want = ''.join(c['ref'][p].upper() for p in pos)
+            want = ''.join(chrom_ref(c)[p].upper() for p in pos)
             md = r['tags'].get('MD')
             if md is None:
                 v.append(('md', 'no MD tag'))
@@ -657,10 +1236,27 @@ class Prop(fw.PropBase):
                     if exp is not None and exp != b:
                         v.append(('call', 'position %d called %s, observations %r: most likely is %s (%s)' % (p, b, obs[p][:12], exp, kind)))
                         break
+            # qualities: one per base (checked above), inside 0..90, and the band of the exact probability of the call
+            ql = r.get('qual')
+            if ql is not None and len(ql) == len(pos) == len(r['seq']):
+                if any(not 0 <= q <= len(TTAB) for q in ql):
+                    v.append(('qual', 'quality outside 0..%d: %r' % (len(TTAB), [q for q in ql if not 0 <= q <= len(TTAB)][:5])))
+                else:
+                    for p, b, q in zip(pos, r['seq'], ql):
+                        if p not in obs:
+                            continue
+                        exp, kind = call_spec(obs[p], ptab)
+                        if exp is None or exp != b or (kind == 'tie' and not tie_is_order_safe(obs[p])):
+                            continue
+                        eq, qkind = phred_of_column(obs[p], ptab)
+                        if eq is not None and eq != q:
+                            v.append(('qual', 'position %d (called %s) has quality %d; the probability of the call given the observations '
+                                      '%r is %.12g, i.e. quality %d' % (p, b, q, obs[p][:12], float(call_spec(obs[p], ptab, want_prob=True)), eq)))
+                            break
             t = r['tags']
-            if r['contig'] != c.get('contig', 'chr1'):
+            if r['contig'] != m['chrom']:
                 v.append(('contig', 'record placed on contig %s, the molecule is on %s (target header order %r)'
-                          % (r['contig'], c.get('contig', 'chr1'), TARGETS[c.get('target', 0)])))
+                          % (r['contig'], m['chrom'], TARGETS[c.get('target', 0)])))
             flag = 16 if m['strand'] else 0
             if r['flag'] != flag:
                 v.append(('flag', 'flag %d, expected %d' % (r['flag'], flag)))
@@ -691,7 +1287,8 @@ class Prop(fw.PropBase):
         cases = self.cases()
         libs = self.cli_libs()
         hists = self.histories()
-        res = fw.run_impl('impl_c15.py', {'api': cases, 'cli': libs, 'hist': hists})
+        probes = self.phred_probes()
+        res = fw.run_impl('impl_c15.py', {'api': cases, 'cli': libs, 'hist': hists, 'phred': probes})
         tm['impl_s'] = round(time.time() - t0, 1)
         self.hists_ = hists
         self.cov['timing'] = tm
@@ -804,8 +1401,17 @@ class Prop(fw.PropBase):
             return
         # model
         t0 = time.time()
-        mv = run_model_par(0, [model_input(c, ptab) for c, _ in pairs])
-        pre = run_model_par(1, [model_input(c, ptab) for c, _ in pairs])
+        m_inputs = [model_input(c, ptab) for c, _ in pairs]
+        mv = run_model_par(0, m_inputs)
+        pre = run_model_par(1, m_inputs)
+        # the request as a whole (mode 5) for the cases outside the hypotheses of the block theorem
+        x_idx = [i for i, (c, _) in enumerate(pairs) if c.get('xkind')]
+        mx = run_model_par(5, [m_inputs[i] for i in x_idx]) if x_idx else []
+        outcome = {}
+        for i, o in zip(x_idx, mx):
+            outcome[i] = (o[0], (o[1][0] if o[1] else None))
+            mv[i] = o[2]
+        xh = {}
         tm['model_s'] = round(time.time() - t0, 1)
         self.cov['precondition_hit_rate'] = round(sum(pre) / max(1, len(pre)), 4)
         # the model's own state machine (mode 4: run_ops) against the per-request consensus of the fragments the harness holds
@@ -825,8 +1431,25 @@ class Prop(fw.PropBase):
         n_calls = n_excl_near = n_excl_tie = n_ties = n_rec = 0
         md_dec_in, md_dec_meta = [], []
         samples = []
+        n_qual = n_qual_near = n_multi = n_multi_refuting = 0
         for i, ((c, im), out) in enumerate(zip(pairs, mv)):
-            if im.get('error'):
+            if i in outcome:
+                # compared: records or none.  Which exception says "none" is left free (recorded in the evidence)
+                kind, kcontig = outcome[i]
+                model_none = kind != 0 or not out
+                impl_none = bool(im.get('error')) or not im.get('records')
+                key = '%s: model %s, impl %s' % (c['xkind'], ['records' if out else 'no record', 'ValueError', 'AttributeError'][kind],
+                                                 im['error'].split(':')[0] if im.get('error') else ('records' if im.get('records') else 'no record'))
+                xh[key] = xh.get(key, 0) + 1
+                if model_none != impl_none:
+                    dis.append({'fn': 'outcome', 'case': i, 'what': key, 'impl_error': im.get('error'), 'input': c, 'case_obj': c})
+                    continue
+                if model_none:
+                    continue
+                if is_multicontig(c):
+                    n_multi += 1
+                    n_multi_refuting += refutes_on_contig(c, im)
+            elif im.get('error'):
                 dis.append({'fn': 'consensus', 'case': i, 'impl_error': im['error'], 'input': c})
                 continue
             m = expected_meta(c)
@@ -849,7 +1472,7 @@ class Prop(fw.PropBase):
                 if g_['nqual'] != len(e['seq']): d['nqual'] = (len(e['seq']), g_['nqual'])
                 if g_['flag'] != (16 if e['reverse'] else 0): d['flag'] = (16 if e['reverse'] else 0, g_['flag'])
                 if g_['mapq'] != e['mapq']: d['mapq'] = (e['mapq'], g_['mapq'])
-                if g_['contig'] != c.get('contig', 'chr1'): d['contig'] = (c.get('contig', 'chr1'), g_['contig'])
+                if g_['contig'] != m['chrom']: d['contig'] = (m['chrom'], g_['contig'])
                 t = g_['tags']
                 for k in ('SM', 'DS', 'RX', 'BC', 'MI', 'TF'):
                     if t.get(k) != e[k]: d[k] = (e[k], t.get(k))
@@ -858,7 +1481,8 @@ class Prop(fw.PropBase):
                     d['seq'] = (e['seq'], g_['seq'])
                 else:
                     pos = [p for s, en in (cigar_blocks(e['start'], e['cigar']) or []) for p in range(s, en)]
-                    for p, a, b, cl in zip(pos, e['seq'], g_['seq'], e['classes']):
+                    gq = g_.get('qual') or []
+                    for j, (p, a, b, cl) in enumerate(zip(pos, e['seq'], g_['seq'], e['classes'])):
                         n_calls += 1
                         if cl == 2:
                             n_excl_near += 1; masked = True; continue
@@ -869,6 +1493,17 @@ class Prop(fw.PropBase):
                         if a != b:
                             d['seq'] = {'position': p, 'model': a, 'impl': b, 'observations': ob.get(p, [])[:20]}
                             break
+                        # the phred quality of the call (only outside the stated margin around a rounding threshold)
+                        if len(gq) == len(e['qual']):
+                            if cl == 0 and phred_of_column(ob.get(p, []), ptab)[1] == 'near':
+                                n_qual_near += 1
+                            else:
+                                n_qual += 1
+                                if gq[j] != e['qual'][j]:
+                                    d['qual'] = {'position': p, 'base': a, 'model': e['qual'][j], 'impl': gq[j], 'observations': ob.get(p, [])[:20]}
+                                    break
+                    if len(gq) != len(e['qual']) and 'nqual' not in d:
+                        d['qual'] = {'what': 'number of qualities', 'model': len(e['qual']), 'impl': len(gq)}
                 if not masked and t.get('MD') != e['md']:
                     d['md'] = (e['md'], t.get('MD'))
                 if g_.get('md_error') or g_.get('md_bad'):
@@ -882,13 +1517,40 @@ class Prop(fw.PropBase):
                 samples.append({'klass': c['klass'], 'max_N_span': c['max_N_span'],
                                 'reads': [[r['pos'], ''.join('%d%s' % (n, 'MIDNSHP=X'[op]) for op, n in r['cigar'])] for r in case_reads(c)[0]],
                                 'impl': [[g_['start'], ''.join('%d%s' % (n, 'MIDNSHP=X'[op]) for op, n in g_['cigar']), g_['tags'].get('MD')] for g_ in got]})
+        # the quality function alone: the model's phred (mode 6) against extract_stretch_from_dict on probe probabilities
+        ph = res.get('phred', {})
+        n_probe = n_probe_near = 0
+        if ph.get('error'):
+            # extract_stretch_from_dict could not be called on its own (renamed / other signature / needs more of the
+            # molecule): not a disagreement - the qualities are compared through the records anyway
+            self.cov['phred_probes'] = {'compared': 0, 'unavailable': ph['error'][:300]}
+            self.notes.append('quality probes skipped: extract_stretch_from_dict could not be called stand-alone (%s)' % ph['error'][:200])
+        else:
+            mq = fw.run_model('C15', 6, [[[], [], [], [], [], [], pr] for pr in probes])
+            band = {}
+            for pr, (q, X), got in zip(probes, mq, ph['phred']):
+                if any(abs(X - T) <= (1 << 20) + (X >> 30) for T in TTAB):
+                    n_probe_near += 1
+                    continue
+                n_probe += 1
+                band[q] = band.get(q, 0) + 1
+                if q != got:
+                    dis.append({'fn': 'phred', 'what': 'quality of probability %d/%d (= %.17g): model %d, extract_stretch_from_dict %d'
+                                % (pr[0], pr[1], pr[0] / pr[1], q, got), 'case_obj': {'probability_of_the_call': pr, 'as_float': pr[0] / pr[1]}})
+                    break
+            if ph.get('default') != ['N', 0]:
+                dis.append({'fn': 'phred', 'what': 'a position without observation reads %r, model (N, quality 0)' % (ph.get('default'),),
+                            'case_obj': {'base_call_dict': {}, 'position': 'any'}})
+            self.cov['phred_probes'] = {'compared': n_probe, 'excluded_within_margin_of_a_threshold': n_probe_near,
+                                        'quality_values_hit': len(band), 'rule': 'probabilities placed 2^-35 .. 5% on both sides of each of the 90 '
+                                        'rounding thresholds, at the clip bounds, and log-uniform; model mode 6 vs the real extract_stretch_from_dict'}
         # the Coq MD reader and CIGAR walk on the implementation's records
         dec = fw.run_model('C15', 2, md_dec_in) if md_dec_in else []
         walk = fw.run_model('C15', 3, [[g_['start'], g_['cigar']] for _, g_ in md_dec_meta]) if md_dec_in else []
         for (i, g_), dd, ww in zip(md_dec_meta, dec, walk):
             c = pairs[i][0]
             posw, qlen = ww
-            want = [ord(c['ref'][p].upper()) for p in posw] if all(0 <= p < len(c['ref']) for p in posw) else None
+            want = [ord(chrom_ref(c)[p].upper()) for p in posw] if all(0 <= p < len(c['ref']) for p in posw) else None
             if not dd or dd[0] != want:
                 dis.append({'fn': 'md_decode', 'case': i, 'what': 'Coq MD reader on the implementation record does not give the reference',
                             'md': g_['tags'].get('MD'), 'case_obj': c})
@@ -897,6 +1559,10 @@ class Prop(fw.PropBase):
         self.cov.update({
             'records_compared': n_rec, 'base_calls_compared': n_calls - n_excl_near - n_excl_tie,
             'base_calls_excluded_near_tie': n_excl_near, 'exact_ties': n_ties, 'exact_ties_excluded_order_sensitive': n_excl_tie,
+            'qualities_compared': n_qual, 'qualities_excluded_near_threshold': n_qual_near,
+            'request_outcomes': {'cases': len(x_idx), 'by_kind_model_impl': xh,
+                                 'multi_contig_cases_with_records': n_multi,
+                                 'multi_contig_cases_refuting_the_statement (finding D35)': n_multi_refuting},
             'cases_skipped_fragment_association': skipped_assoc,
             'traces_validated_against_impl': len(pairs) - skipped_assoc, 'disagreements': len(dis),
         })
@@ -905,13 +1571,21 @@ class Prop(fw.PropBase):
                                                                for g_ in im['records']]} for c, im in hist_pairs[-2:]]
         # vm_compute cross-check of the extracted model on a sample
         small = [i for i, (c, _) in enumerate(pairs) if sum(len(r['seq']) for r in case_reads(c)[0]) < 160]
-        idx = sorted(self.rng.sample(small, min(100, len(small)))) if small else []
+        idx = sorted(self.rng.sample(small, min(90, len(small)))) if small else []   # + 20 whole requests (mode 5) below
         t0 = time.time()
-        ok, nm, log = fw.vm_crosscheck('C15', 0, [(model_input(pairs[i][0], ptab), mv[i]) for i in idx])
-        tm['vm_s'] = round(time.time() - t0, 1)
+        idx = [i for i in idx if i not in outcome][:80]
+        ok, nm, log = fw.vm_crosscheck('C15', 0, [(m_inputs[i], mv[i]) for i in idx])
         self.cov['vm_compute_crosscheck'] = {'cases': len(idx), 'mismatches': nm}
         if not ok:
             raise fw.Broken('extraction', 'vm_compute and extracted model disagree: ' + log[-800:])
+        xs = [k for k, i in enumerate(x_idx) if sum(len(r['seq']) for r in case_reads(pairs[i][0])[0]) < 110]
+        xs = sorted(self.rng.sample(xs, min(20, len(xs)))) if xs else []
+        if xs:
+            ok, nm, log = fw.vm_crosscheck('C15', 5, [(m_inputs[x_idx[k]], mx[k]) for k in xs])
+            self.cov['vm_compute_crosscheck_request_mode'] = {'cases': len(xs), 'mismatches': nm}
+            if not ok:
+                raise fw.Broken('extraction', 'vm_compute and extracted model disagree (mode 5): ' + log[-800:])
+        tm['vm_s'] = round(time.time() - t0, 1)
         if dis or spec_bad:
             self.dis = dis
             first = dis[0] if dis else {'spec': spec_bad[0][2][:2]}
@@ -922,11 +1596,14 @@ class Prop(fw.PropBase):
     # ---------------------------------------------------------------- known findings
     def replay_known(self, finding):
         """re-run the recorded corpus case of a finding on the implementation; True while it still fails the same way"""
-        fn = {KEY_D31: 'd31_no_cut_site.json', 'C15:md': 'd18_md_gap.json', 'C15:error:AttributeError': 'd17_np_product.json'}.get(finding.get('key'))
+        fn = {KEY_D31: 'd31_no_cut_site.json', 'C15:md': 'd18_md_gap.json', 'C15:error:AttributeError': 'd17_np_product.json',
+              KEY_D35: 'd35_multicontig.json'}.get(finding.get('key'))
         if fn is None:
             return False
         c = json.load(open(os.path.join(fw.VERIF, 'corpus', 'C15', fn)))['case']
         res = fw.run_impl('impl_c15.py', {'api': [c], 'cli': []})
+        if finding.get('key') == KEY_D35:
+            return refutes_on_contig(c, res['api'][0])
         keys = set()
         for key, text in self.spec_violations(c, res['api'][0], res['ptab']):
             keys.add('C15:%s' % (('error:' + text.split(':')[0].replace('consensus raised ', '')) if key == 'error' else key))
